@@ -164,15 +164,22 @@ for _n in ('debug', 'info', 'warning', 'error', 'exception', 'critical'):
 # --------------------------------------------------------------------------- #
 # '%' / format with symbolic arguments -> opaque placeholder
 # --------------------------------------------------------------------------- #
+_PLAIN = (str, bytes, int, float, bool, type(None))
+
+
 def _has_symbolic(x, depth=0):
-    # called with tracing off
+    """True when formatting `x` natively would need CrossHair to realise something: a symbolic
+    value, or an arbitrary object (CrossHair deep-realises objects it formats, which walks the whole
+    object graph and enumerates every symbolic value reachable from it). Called with tracing off."""
     if isinstance(x, B.CrossHairValue):
         return True
+    if type(x) in _PLAIN:
+        return False
     if depth < 3 and isinstance(x, (tuple, list)):
         return any(_has_symbolic(i, depth + 1) for i in x)
     if depth < 3 and isinstance(x, dict):
         return any(_has_symbolic(i, depth + 1) for i in x.values())
-    return False
+    return True
 
 
 _orig_pct = _core._PATCH_REGISTRATIONS[str.__mod__]
@@ -315,8 +322,51 @@ class PyBytesIO:
         return b''.join(self._parts)
 
 
-_core._PATCH_REGISTRATIONS[_io.BytesIO] = lambda *a: PyBytesIO(*a)
+BYTESIO_MODEL = [False]     # switched on only by harnesses whose code under test uses BytesIO as a write buffer (C16)
+_real_bytesio = _io.BytesIO
+_core._PATCH_REGISTRATIONS[_io.BytesIO] = lambda *a: (PyBytesIO(*a) if BYTESIO_MODEL[0] else _real_bytesio(*a))
 
+
+# --------------------------------------------------------------------------- #
+# os.path.normpath (C implementation in 3.12 realises its argument): CPython's own
+# pure-Python fallback algorithm, kept symbolic
+# --------------------------------------------------------------------------- #
+import posixpath as _pp
+
+_real_normpath = _pp.normpath
+
+
+def _normpath_model(path):
+    sep, empty, dot, dotdot = '/', '', '.', '..'
+    if path == empty:
+        return dot
+    initial_slashes = 1 if path.startswith(sep) else 0
+    if initial_slashes and path.startswith(sep * 2) and not path.startswith(sep * 3):
+        initial_slashes = 2
+    comps = path.split(sep)
+    new_comps = []
+    for comp in comps:
+        if comp == empty or comp == dot:
+            continue
+        if comp != dotdot or (not initial_slashes and not new_comps) or (new_comps and new_comps[-1] == dotdot):
+            new_comps.append(comp)
+        elif new_comps:
+            new_comps.pop()
+    path = sep.join(new_comps)
+    if initial_slashes:
+        path = sep * initial_slashes + path
+    return path or dot
+
+
+def _normpath(path):
+    with NoTracing():
+        sym = isinstance(path, B.CrossHairValue)
+    if sym:
+        return _normpath_model(path)
+    return _real_normpath(path)
+
+
+_core._PATCH_REGISTRATIONS[_pp.normpath] = _normpath
 
 # --------------------------------------------------------------------------- #
 # self test of the models against CPython (runs natively, ~1 s)
@@ -377,4 +427,10 @@ def selftest():
         n += 1
         if exp != got:
             errs.append(('unpack', fmt, data, exp, got))
+    for L in range(0, 8):
+        for tup in itertools.product('/.a', repeat=L):
+            p = ''.join(tup)
+            n += 1
+            if _normpath_model(p) != _real_normpath(p):
+                errs.append(('normpath', p, _normpath_model(p), _real_normpath(p)))
     return n, errs
